@@ -16,6 +16,7 @@ claimed = {
  "C13": ("format -> parse round trip on symbolic decimals for every text form; Compose(Decompose)", "§5 C13"),
  "C14": ("String against an independent to-scientific-string formatter; parser acceptance against the unrolled grammar for ALL ASCII strings up to 7 bytes; Format flags", "§5 C14"),
  "C15": ("Cmp against cross-scaled integers, CmpTotal against a totally ordered key", "§5 C15"),
+ "C16": ("one inductive step of each BigInt method from arbitrary valid representations against math/big semantics: real inner/updateInner/uint64 fast paths executed from SSA in bit-vector logic, representation invariant incl. zero-never-negative, operands unchanged, alias patterns", "§5 C16"),
  "C17": ("Int64, Modf and the integer constructors are exact", "§5 C17"),
  "C18": ("no encoded operation writes shared memory (write-set monitor), hence no race under any interleaving", "§5 C18"),
  "C20": ("the eight rounding modes bracket each other; commutativity, mirror, scaling and monotonicity relations by self-composition, no oracle", "§5 C20"),
@@ -25,7 +26,7 @@ not_applicable = {
  "C11": "Newton cores of Sqrt/Cbrt: chains of dependent symbolic/symbolic decimal divisions at >= 12 working digits are undecided by z3/cvc5 in NIA and QF_BV at the smallest configuration the code admits; no honest bound exists (DESIGN.md §5 C11)",
  "C12": "Exp/Ln/Log10/Pow depend on float64 detours (strconv.ParseFloat, math.Log), up to 1000 Taylor terms and an oracle (1 ulp of a transcendental) that no available SMT theory expresses (DESIGN.md §5 C12)",
 }
-pending = ["C16"]
+pending = []
 
 checks=[]
 for pid,(text,ref) in sorted(claimed.items()):
